@@ -13,8 +13,8 @@ import (
 	"com.tuntun.rangers/node/src/storage/trie"
 	"com.tuntun.rangers/node/src/zzverif/node"
 	"com.tuntun.rangers/node/src/zzverif/runner"
-	"com.tuntun.rangers/node/src/zzverif/simmap"
 	"com.tuntun.rangers/node/src/zzverif/simdisk"
+	"com.tuntun.rangers/node/src/zzverif/simmap"
 	"com.tuntun.rangers/node/src/zzverif/simrt"
 )
 
@@ -61,8 +61,8 @@ func (c03) Budget(tier string) runner.Budget {
 
 func (c03) Describe() runner.Description {
 	return runner.Description{
-		Rule: "each history is 1..6 seeded blocks of balance/nonce/storage/code mutations (code blobs up to 120 KB; code set and set again inside a reverted snapshot) (about half of the blocks write >100 KiB so that the commit is split over several batch writes; some write nothing new) committed as blockChain.saveStates does. evaluations = crash images: for every block and EVERY prefix k=0..N of its physical writes, the disk image (everything durable before + first k writes) is opened with a brand-new database and walked completely (account trie, every storage trie, every code blob): all earlier roots must resolve and read back every recorded value; the block's own root must do so whenever its top node is on disk, and always for k=N. A write-error variant makes one physical write fail: Commit must report it and earlier roots stay intact; the same root is then committed again by the surviving process, and if that reports success the root must resolve from disk alone. exhaustive=true refers to the write prefixes of each generated history (the histories themselves are sampled). distinct_nontrivial = distinct (history, block, k) with 0<k<N, i.e. crash points strictly inside a multi-batch commit.",
-		Assumptions: []string{"crash model = process death: completed physical writes (Put or whole batch) survive, nothing is torn or lost (the code never syncs; the properties speak of process death)", "values read back on the un-crashed state right after each commit are the reference"},
+		Rule:        "each history is 1..6 seeded blocks of balance/nonce/storage/code mutations (code blobs up to 120 KB; code set and set again inside a reverted snapshot; slots emptied and rewritten inside a reverted snapshot; one-byte values; storage keys that are prefixes of one another; 24..140 slots of one account written at once, so that branch nodes with all sixteen children occur) (about half of the blocks write >100 KiB so that the commit is split over several batch writes; some write nothing new) committed as blockChain.saveStates does. evaluations = crash images: for every block and EVERY prefix k=0..N of its physical writes, the disk image (everything durable before + first k writes) is opened with a brand-new database and walked completely (account trie, every storage trie, every code blob): all earlier roots must resolve and read back every recorded value; the block's own root must do so whenever its top node is on disk, and always for k=N. A write-error variant makes one physical write fail: Commit must report it and earlier roots stay intact; the same root is then committed again by the surviving process, and if that reports success the root must resolve from disk alone. exhaustive=true refers to the write prefixes of each generated history (the histories themselves are sampled). distinct_nontrivial = distinct (history, block, k) with 0<k<N, i.e. crash points strictly inside a multi-batch commit.",
+		Assumptions: []string{"crash model = process death: completed physical writes (Put or whole batch) survive, nothing is torn or lost (the code never syncs; the properties speak of process death)", "the reference for every root is what the executing state answered right before its commit (checked against the committed root opened on the live database, and that against every cold image)"},
 		Real:        []string{"storage/account (AccountDB.Commit, account objects)", "storage/trie (NodeDatabase.Commit, commit ordering, batches)", "storage/rlp"},
 		Stub:        []string{"disk: simdisk.KV (write log, crash images, write faults)"},
 		FaultKinds:  []string{"sibling_states_in_memory", "crash_after_write_k", "crash_inside_multibatch_commit", "disk_write_error", "commit_retry_after_write_error"},
@@ -78,9 +78,21 @@ var c03Addrs = []common.Address{
 	common.HexToAddress("0xa455555555555555555555555555555555555555"),
 }
 
-const c03NSlots = 6
+const c03NSlots = 9
 
-func c03Slot(i int) []byte { return common.BytesToHash([]byte{byte(i + 1), 0x77}).Bytes() }
+// slots 0..5: 32-byte keys; 6..8: short keys that are proper prefixes of one another (storage keys are
+// arbitrary byte strings)
+func c03Slot(i int) []byte {
+	if i >= 6 {
+		return []byte("abcd")[:i-4]
+	}
+	return common.BytesToHash([]byte{byte(i + 1), 0x77}).Bytes()
+}
+
+// c03WideKey: the i-th key of a "wide" write (enough keys to fill every child of the top branch nodes)
+func c03WideKey(seed uint64, i int) []byte {
+	return simrt.NewRand(seed ^ uint64(i+1)*0x9e3779b97f4a7c15).Bytes(32)
+}
 
 func (c03) Gen(seed uint64, tier string) json.RawMessage {
 	r := simrt.NewRand(seed)
@@ -123,6 +135,15 @@ func (c03) Gen(seed uint64, tier string) json.RawMessage {
 				}
 			default:
 				m.K = "del"
+				if r.Chance(0.3) {
+					m.K, m.N = "redel", r.Range(1, 40) // emptied, then rewritten inside a snapshot that is reverted
+				}
+			}
+			if m.K == "data" && r.Chance(0.15) {
+				m.K, m.N = "tiny", r.Intn(256) // a one-byte value
+			}
+			if m.K == "data" && !big && r.Chance(0.12) {
+				m.K, m.N = "wide", r.Range(24, 140) // that many slots of one account at once
 			}
 			blk = append(blk, m)
 		}
@@ -175,6 +196,17 @@ func c03Apply(st *account.AccountDB, m c03Mut, seed uint64) {
 		st.RevertToSnapshot(id)
 	case "del":
 		st.RemoveData(a, c03Slot(m.S))
+	case "redel":
+		st.SetData(a, c03Slot(m.S), nil)
+		id := st.Snapshot()
+		st.SetData(a, c03Slot(m.S), c03Bytes(seed^0x79, m.N))
+		st.RevertToSnapshot(id)
+	case "tiny":
+		st.SetData(a, c03Slot(m.S), []byte{byte(m.N)})
+	case "wide":
+		for i := 0; i < m.N; i++ {
+			st.SetData(a, c03WideKey(seed, i), c03Bytes(seed^uint64(i), 33+i%40))
+		}
 	}
 }
 
@@ -197,6 +229,8 @@ func c03Observe(st *account.AccountDB) []string {
 				n++
 			}
 			o = append(o, fmt.Sprintf("a%d.iter=%d err=%v", i, n, it.Err != nil))
+		} else {
+			o = append(o, fmt.Sprintf("a%d.iter=none", i))
 		}
 	}
 	return o
@@ -334,6 +368,9 @@ func (c03) Exec(raw json.RawMessage, stt *simrt.Stats, log *simrt.Log) *simrt.Vi
 				c03Apply(stAlt, m, p.Seed+uint64(b*100+50+i))
 			}
 		}
+		// what the executing state answers before the commit (the statement's reference); the iteration
+		// count is left out: a data iterator walks committed storage only
+		pre := c03Observe(st)
 		newRoot, err := st.Commit(true)
 		if err == nil && stAlt != nil {
 			altRoot, err = stAlt.Commit(true) // both states sit in the memory layer before either is flushed
@@ -428,6 +465,15 @@ func (c03) Exec(raw json.RawMessage, stt *simrt.Stats, log *simrt.Log) *simrt.Vi
 			return viol(b, "acknowledged-root-not-durable", "open-live", "block %d root %x: %v", b, newRoot.Bytes(), err)
 		}
 		d := durable{newRoot, c03Observe(live)}
+		for i := range pre {
+			// an account object that is still empty at the commit is not stored: its code hash reads as the
+			// hash of empty code before and as zero (no account) afterwards - the same "no code"
+			emptyObj := strings.HasSuffix(pre[i], ".codehash=a7ffc6f8bf1ed76651c14756a061d662f580ff4de43b49fa82d80a4b80f8434a") && strings.HasSuffix(d.obs[i], ".codehash=0000000000000000000000000000000000000000000000000000000000000000")
+			if pre[i] != d.obs[i] && !strings.Contains(pre[i], ".iter=") && !emptyObj {
+				_, f := c04Field(pre[i])
+				return viol(b, "value-differs-from-before-commit", "value-"+f, "block %d root %x: read before the commit: %s, read from the committed root: %s", b, newRoot.Bytes(), pre[i], d.obs[i])
+			}
+		}
 		if v := checkRoot(b, simdisk.Image(kv.Snapshot(), nil, 0), d, "acknowledged-root-not-durable"); v != nil {
 			return v
 		}
@@ -445,10 +491,10 @@ func (c03) Exec(raw json.RawMessage, stt *simrt.Stats, log *simrt.Log) *simrt.Vi
 		}
 		parentRoot = newRoot
 		stt.State(simrt.HashString(strings.Join(d.obs, ";")))
-		// next block: continue on the same AccountDB object or a fresh one (both occur in the node)
-		if (p.Seed>>uint(b))&1 == 0 {
-			st, _ = account.NewAccountDB(newRoot, adb)
-		}
+		// next block: a new AccountDB at the committed root, as block execution opens one per block (an
+		// AccountDB object that has been committed only serves reads in the node: its account objects do
+		// not mark themselves dirty again, so writes made through it afterwards would never be committed)
+		st, _ = account.NewAccountDB(newRoot, adb)
 	}
 	return nil
 }
